@@ -1,6 +1,168 @@
-(* C17 - placeholder while the pipeline is brought up *)
-From Coq Require Import List.
-From V Require Import C17_Compile.Model C17_Compile.Proofs.
-Theorem c17_placeholder : True.
-Proof. exact I. Qed.
-Print Assumptions c17_placeholder.
+(* C17 - a compiled application definition says exactly what the VSQL source says.
+   Statements only; every proof is `exact <lemma>` into C17_Compile/Proofs.v.
+
+   `compile_items a Ideal` is the reference compiler (the executable form of the spec),
+   `Declares a it` the declarative relation "item it is declared by schema a, directly or by the
+   documented inheritance / system rules", `compile a Go` the faithful model of pkg/parser + appdef
+   builder as they are, `wf a` the language rules (what the property calls a well-formed schema). *)
+From Coq Require Import List NArith ZArith Bool String.
+From V Require Import Lib.Check Gen.Params C17_Compile.Model C17_Compile.Proofs.
+Import ListNotations.
+Local Open Scope N_scope.
+
+(* Nothing undeclared appears: every compiled item - workspace, table, nested table, type, view,
+   command, query, projector, role, rate, limit - is declared; its fields are the system fields of
+   its kind, then the members inherited along the INHERITS chain, then its own ones (struct_item),
+   with the declared kinds, flags, lengths, reference targets, key split, parameters and grants. *)
+Theorem compile_ref_sound :
+  forall a, wf a = true -> forall it, In it (compile_items a Ideal) -> Declares a it.
+Proof. exact wf_compile_sound. Qed.
+
+(* Nothing declared is dropped (workspace ancestors are compared as a set). *)
+Theorem compile_ref_complete :
+  forall a, wf a = true -> forall it, Declares a it ->
+  exists it', In it' (compile_items a Ideal) /\ item_equiv it it'.
+Proof. exact wf_compile_complete. Qed.
+
+(* One item per name: nothing is compiled twice, and two declarations of one name are one item. *)
+Theorem compile_ref_no_duplicates :
+  forall a, wf a = true -> NoDup (map item_key (compile_items a Ideal)).
+Proof. exact wf_keys_nodup. Qed.
+
+Theorem declared_once :
+  forall a, wf a = true -> forall i j, Declares a i -> Declares a j -> item_key i = item_key j -> item_equiv i j.
+Proof. exact wf_declared_once. Qed.
+
+(* Field order: system fields ++ inherited (ancestors first) ++ declared, each in declaration order;
+   same for containers. *)
+Theorem fields_system_inherited_declared :
+  forall a m pn wq t k sg b ls, Chain a pn t b ls ->
+  exists inherited,
+    ls = inherited ++ [(pn, t_items t)] /\
+    struct_item m pn wq t k sg ls =
+    ItStruct (pn, t_name t) k wq (t_abstract t) sg
+             (sys_fields k ++ flat_map fields_of inherited ++ fields_of (pn, t_items t))
+             (flat_map conts_of inherited ++ conts_of (pn, t_items t)) (uniqs_chain m ls).
+Proof. exact struct_field_order. Qed.
+
+Theorem declared_fields_in_order :
+  forall l, map fd_name (fields_of l) =
+            flat_map (fun it => match it with TField f => [f_name f] | TRef n _ _ => [n] | _ => [] end) (snd l).
+Proof. exact fields_of_names. Qed.
+
+(* Side conditions on what the translator read off pkg/parser (Gen/Params.v): the three behaviours
+   that were defects F23, F24, F25 are the spec's.  A regression flips a flag and re-opens these. *)
+Lemma uniques_numbered_per_type : parser_uniques_numbered_per_type = true.
+Proof. reflexivity. Qed.
+Lemma nested_tables_inherit : parser_nested_tables_inherit = true.
+Proof. reflexivity. Qed.
+Lemma view_refs_recorded : parser_view_refs_recorded = true.
+Proof. reflexivity. Qed.
+
+(* The faithful model of the Go compiler against the spec - the link theorem: for every well-formed
+   schema the model compiles it and the oracle `satisfies` accepts the model's output (so the
+   property holds on every input on which compiler and model agree). *)
+Theorem go_model_meets_spec :
+  forall a, wf a = true ->
+  exists d, compile a Go = Some d /\ satisfies (Trace a (render a) (Compiled d true true)) = true.
+Proof. exact (go_meets_spec_proved uniques_numbered_per_type nested_tables_inherit view_refs_recorded). Qed.
+
+(* item for item: the model's output is the spec's output, up to the repetition of a workspace's
+   declared ACL block (the statements of an inherited workspace are applied once per heir) *)
+Theorem go_model_item_for_item :
+  forall a, Forall2 item_ok (compile_items a Ideal) (compile_items a Go).
+Proof. exact (go_item_for_item_proved uniques_numbered_per_type nested_tables_inherit view_refs_recorded). Qed.
+
+(* The same for any compiler of this family (mode m): at each of the three points it does what the
+   spec does, or the schema avoids the shape on which they differ ... *)
+Theorem any_mode_meets_spec_conditional :
+  forall a m, wf a = true ->
+  (m_uniq_per_type m = true \/ no_unique_collision a m = true) ->
+  (m_nested_inherit m = true \/ no_nested_user_inherit a = true) ->
+  (m_view_refs m = true \/ no_view_ref_targets a = true) ->
+  exists d, compile a m = Some d /\ satisfies (Trace a (render a) (Compiled d true true)) = true.
+Proof. exact satisfies_model_output_proved. Qed.
+
+(* ... and the conditions are needed: the compiler as it was before the repairs of F23, F24, F25
+   (mode GoBefore) fails the oracle on three well-formed schemas, each hitting exactly one shape
+   (the corpus cases f23, f24, f25 of corpus/C17, now regression probes). *)
+Definition a_f23 : schema := [(Pkg "app1"%string [[(Ws "Ws1"%string false [] None [(ITable (Table "Base"%string true (Some (QR "sys"%string "CDoc"%string)) [(TField (Fld "a"%string DInt32 false false None)); (TUnique None ["a"%string])])); (ITable (Table "Child"%string false (Some (QR "app1"%string "Base"%string)) [(TField (Fld "b"%string DInt32 false false None)); (TUnique None ["b"%string])]))])]])].
+Definition a_f24 : schema := [(Pkg "app1"%string [[(Ws "Ws1"%string false [] None [(ITable (Table "ARec"%string true (Some (QR "sys"%string "CRecord"%string)) [(TField (Fld "ax"%string DInt32 true false None)); (TNested "axs"%string (Table "ARecSub"%string false None [(TField (Fld "zz"%string DInt32 false false None))]))])); (ITable (Table "Doc"%string false (Some (QR "sys"%string "CDoc"%string)) [(TField (Fld "own"%string DInt32 false false None)); (TNested "items"%string (Table "It"%string false (Some (QR "app1"%string "ARec"%string)) [(TField (Fld "q"%string DInt32 false false None))]))]))])]])].
+Definition a_f25 : schema := [(Pkg "app1"%string [[(Ws "Ws1"%string false [] None [(ITable (Table "T"%string false (Some (QR "sys"%string "CDoc"%string)) [(TField (Fld "a"%string DInt32 false false None))])); (IProj (Proj "P"%string false false [(TrTab true false false false [(QR ""%string "T"%string)])] [(QR ""%string "V"%string)] false)); (IView (View "V"%string [(VField "k"%string DInt32 false); (VField "c"%string DInt64 false); (VRef "r"%string [(QR ""%string "T"%string)] true)] ["k"%string] ["c"%string] (QR ""%string "P"%string)))])]])].
+
+Example before_repair_refuted_F23 :
+  wf a_f23 = true /\ compile a_f23 GoBefore = None
+  /\ no_unique_collision a_f23 GoBefore = false /\ no_nested_user_inherit a_f23 = true /\ no_view_ref_targets a_f23 = true.
+Proof. vm_compute. repeat split. Qed.
+
+Example before_repair_refuted_F24 :
+  wf a_f24 = true
+  /\ (exists d, compile a_f24 GoBefore = Some d /\ satisfies (Trace a_f24 (render a_f24) (Compiled d true true)) = false)
+  /\ no_unique_collision a_f24 GoBefore = true /\ no_nested_user_inherit a_f24 = false /\ no_view_ref_targets a_f24 = true.
+Proof. split; [vm_compute; reflexivity|]. split; [eexists; split; vm_compute; reflexivity|]. vm_compute. repeat split. Qed.
+
+Example before_repair_refuted_F25 :
+  wf a_f25 = true
+  /\ (exists d, compile a_f25 GoBefore = Some d /\ satisfies (Trace a_f25 (render a_f25) (Compiled d true true)) = false)
+  /\ no_unique_collision a_f25 GoBefore = true /\ no_nested_user_inherit a_f25 = true /\ no_view_ref_targets a_f25 = false.
+Proof. split; [vm_compute; reflexivity|]. split; [eexists; split; vm_compute; reflexivity|]. vm_compute. repeat split. Qed.
+
+(* the three probes are accepted by the oracle for the compiler as it is *)
+Example repaired_probes :
+  (exists d, compile a_f23 Go = Some d /\ satisfies (Trace a_f23 (render a_f23) (Compiled d true true)) = true)
+  /\ (exists d, compile a_f24 Go = Some d /\ satisfies (Trace a_f24 (render a_f24) (Compiled d true true)) = true)
+  /\ (exists d, compile a_f25 Go = Some d /\ satisfies (Trace a_f25 (render a_f25) (Compiled d true true)) = true).
+Proof. repeat split; eexists; split; vm_compute; reflexivity. Qed.
+
+(* non-vacuity: a two-package application (workspace and table inheritance across packages, a nested
+   table with seven fields, references, uniques, grants in the inherited workspace) is well-formed,
+   compiles to 11 items; the nested table's compiled fields are the
+   five system fields of a CRecord followed by the seven declared ones in order *)
+Definition ex : schema := [(Pkg "app1"%string [[(Ws "W1"%string false [(QR "liba"%string "AW"%string)] (Some [(Fld "d"%string (DVarchar (Some 10%N)) false false None)]) [(ITable (Table "T2"%string false (Some (QR "liba"%string "Base"%string)) [(TField (Fld "g"%string (DVarchar (Some 65535%N)) true false None)); (TRef "r"%string [(QR "liba"%string "T1"%string); (QR ""%string "T2"%string)] false); (TNested "rows"%string (Table "T2Row"%string false (Some (QR "sys"%string "CRecord"%string)) [(TField (Fld "f1"%string DInt8 false false None)); (TField (Fld "f2"%string DInt16 false false None)); (TField (Fld "f3"%string DFloat32 false false None)); (TField (Fld "f4"%string DFloat64 false false None)); (TField (Fld "f5"%string DTimestamp false false None)); (TField (Fld "f6"%string DCurrency false false None)); (TField (Fld "f7"%string DBlob true false None)); (TUnique None ["f1"%string; "f2"%string])]))])); (IRole "R2"%string false); (IGrant (Grant false (GTable (QR ""%string "T2"%string) [(OSelect, ["g"%string]); (OUpdate, [])]) (QR ""%string "R2"%string))); (IGrant (Grant false (GRole (QR "liba"%string "R1"%string)) (QR ""%string "R2"%string)))])]; [(Ws "W2"%string false [] None [(IUse "W1"%string)])]]); (Pkg "liba"%string [[(Ws "AW"%string true [] None [(IRole "R1"%string true); (ITable (Table "Base"%string true (Some (QR "sys"%string "CDoc"%string)) [(TField (Fld "bx"%string DInt64 true false None)); (TUnique (Some "ub"%string) ["bx"%string])])); (ITable (Table "T1"%string false (Some (QR "liba"%string "Base"%string)) [(TField (Fld "h"%string DQName false false None))])); (IGrant (Grant false (GTableAll (QR ""%string "T1"%string) []) (QR ""%string "R1"%string))); (IGrant (Grant true (GTable (QR ""%string "T1"%string) [(OUpdate, ["h"%string])]) (QR ""%string "R1"%string)))])]])].
+
+Example ex_nonvacuous :
+  wf ex = true
+  /\ List.length (compile_items ex Ideal) = 11%nat
+  /\ (exists d, compile ex Go = Some d /\ satisfies (Trace ex (render ex) (Compiled d true true)) = true)
+  /\ match find (fun i => qname_eqb (item_key i) ("app1", "T2Row")%string) (compile_items ex Ideal) with
+     | Some (ItStruct _ k _ _ _ fs _ us) =>
+       k = KCRecord /\ map fd_name fs = ["sys.QName"; "sys.ID"; "sys.ParentID"; "sys.Container"; "sys.IsActive";
+                                         "f1"; "f2"; "f3"; "f4"; "f5"; "f6"; "f7"]%string
+       /\ map ud_name us = ["01"%string]
+     | _ => False
+     end
+  /\ match find (fun i => qname_eqb (item_key i) ("app1", "T2")%string) (compile_items ex Ideal) with
+     | Some (ItStruct _ k _ _ _ fs cs _) =>
+       k = KCDoc /\ map fd_name fs = ["sys.QName"; "sys.ID"; "sys.IsActive"; "bx"; "g"; "r"]%string /\ List.length cs = 1%nat
+     | _ => False
+     end.
+Proof.
+  split; [vm_compute; reflexivity|]. split; [vm_compute; reflexivity|].
+  split; [eexists; split; vm_compute; reflexivity|].
+  split; vm_compute; repeat split.
+Qed.
+
+(* the declarative relation is inhabited on the same example *)
+Example ex_declares_role : Declares ex (ItRole ("app1", "R2")%string ("app1", "W1")%string false).
+Proof.
+  pose (p := hd (Pkg ""%string []) ex). pose (w := hd (Ws ""%string false [] None []) (p_wss p)).
+  apply (D_role ex p w "R2"%string false).
+  - split; vm_compute; auto.
+  - vm_compute. tauto.
+Qed.
+
+Print Assumptions compile_ref_sound.
+Print Assumptions compile_ref_complete.
+Print Assumptions compile_ref_no_duplicates.
+Print Assumptions declared_once.
+Print Assumptions fields_system_inherited_declared.
+Print Assumptions declared_fields_in_order.
+Print Assumptions go_model_meets_spec.
+Print Assumptions go_model_item_for_item.
+Print Assumptions any_mode_meets_spec_conditional.
+Print Assumptions before_repair_refuted_F23.
+Print Assumptions before_repair_refuted_F24.
+Print Assumptions before_repair_refuted_F25.
+Print Assumptions repaired_probes.
+Print Assumptions ex_nonvacuous.
+Print Assumptions ex_declares_role.
